@@ -185,21 +185,18 @@ class SQLiteBuildDB : public BuildDB {
 
       // Always recreate the database from scratch when the schema changes.
       result = basic::sys::unlink(path.c_str());
-      if (result == -1) {
-        if (errno != ENOENT) {
-          *error_out = std::string("unable to unlink existing database: ") +
-            ::strerror(errno);
-          sqlite3_close(db);
-          db = nullptr;
-          return false;
-        }
-      } else {
-        // If the remove was successful, reopen the database.
-        int result = sqlite3_open(path.c_str(), &db);
-        if (result != SQLITE_OK) {
-          *error_out = getCurrentErrorMessage();
-          return false;
-        }
+      if (result == -1 && errno != ENOENT) {
+        *error_out = std::string("unable to unlink existing database: ") +
+          ::strerror(errno);
+        return false;
+      }
+
+      // Reopen the database, whether the file was removed or was already gone
+      // (the connection was closed above and must not be used any more).
+      result = sqlite3_open(path.c_str(), &db);
+      if (result != SQLITE_OK) {
+        *error_out = getCurrentErrorMessage();
+        return false;
       }
 
       // Create the schema in a single transaction.
